@@ -634,7 +634,7 @@ func lexPrintClose(l *lexer) stateFn {
 }
 
 func isSpace(str string) bool {
-	return str == " " || str == "\t" || str == "\n"
+	return str == " " || str == "\t" || str == "\n" || str == "\r"
 }
 
 func isName(str string) bool {
